@@ -66,11 +66,17 @@ pub fn verif_from(v: &[u8], k: usize) -> (r: &[u8])
     ensures sloc(r) == l, r is QuotedString
 //@ end
 
-//@ note make_atom (what the modern reader makes of a word): except for a #-prefixed word that names a primitive (replaced by the primitive, which carries its own location) the value is located where the caller says -- the contract unit readerstep assumes; a word that is neither hex nor decimal is the atom of exactly its bytes; the slices taken are inside the word
+impl SExp {
+//@ extract fn with_loc from src/compiler/sexp.rs in impl SExp
+//@ sig r
+    ensures sloc(r) == loc
+//@ end
+}
+//@ note make_atom (what the modern reader makes of a word): every value, also the number a #-prefixed operator name stands for (finding F54: it used to carry the operator table's own location in the pseudo-file *prims*), is located where the caller says -- the contract unit readerstep assumes; a word that is neither hex nor decimal is the atom of exactly its bytes; the slices taken are inside the word
 //@ extract fn make_atom from src/compiler/sexp.rs
 //@ canary word_relocated @<Integral::NotIntegralValue => SExp::Atom(l, v),>@ => @<Integral::NotIntegralValue => SExp::Atom(Srcloc { file: l.file, line: 0, col: l.col, until: l.until }, v),>@
 //@ replace all R49 @<v[1..].to_vec()>@ => @<verif_from(v.as_slice(), 1).to_vec()>@
-//@ replace-span R31 @<for p in prims() {>@ @<return p.1;>@ => @<let verif_prims = prims(); let mut verif_i: usize = 0; let verif_n = verif_prims.len(); let mut verif_hit: Option<SExp> = None; while verif_i < verif_n invariant verif_n == verif_prims@.len() decreases verif_n - verif_i { if verif_vec_eq(&want_name, &verif_prims[verif_i].0) { verif_hit = Some(verif_prims[verif_i].1.clone()); break; } verif_i = verif_i + 1; } if true { if verif_hit.is_some() { return verif_hit.unwrap();>@
+//@ replace-span R31 @<for p in prims() {>@ @<return p.1.with_loc(l);>@ => @<let verif_prims = prims(); let mut verif_i: usize = 0; let verif_n = verif_prims.len(); let mut verif_hit: Option<SExp> = None; while verif_i < verif_n invariant verif_n == verif_prims@.len() decreases verif_n - verif_i { if verif_vec_eq(&want_name, &verif_prims[verif_i].0) { verif_hit = Some(verif_prims[verif_i].1.clone()); break; } verif_i = verif_i + 1; } if true { if verif_hit.is_some() { return verif_hit.unwrap().with_loc(l);>@
 //@ sigfile r contracts/make_atom.sig
 //@ end
 }
